@@ -354,7 +354,7 @@ class Blr(RiscvInstruction):
         tokens[0][7:12] = self.rd.num
         tokens[0][12:15] = 0
         tokens[0][15:20] = self.rs1.num
-        tokens[0][20:32] = self.offset
+        tokens[0][20:32] = wrap_negative(self.offset, 12)
         return tokens[0].encode()
 
 
